@@ -39,8 +39,8 @@ def gen_desc(rng, lib=None, n_inst=None, seq=True):
                 return nm
     for _ in range(rng.randint(1, 5)):
         if rng.random() < 0.4:
-            w = rng.choice([1, 2, 3, 4, 5, 12])      # 12: indices >= 10 (numeric vs. string order)
-            lo = rng.randint(0, 3)
+            w = rng.choice([1, 2, 3, 4, 5, 12, 12, 33, 70])      # 12: indices >= 10 (numeric vs. string order); 33, 70: wider than a machine word
+            lo = rng.choice([0, 1, 2, 3, 8, 9, 95, 120])            # bounds with different numbers of digits
             rg = (lo + w - 1, lo) if rng.random() < 0.5 else (lo, lo + w - 1)
             nm = fresh('ib')
             bits = [f'{nm}[{i}]' for i in _range(rg)]
@@ -108,8 +108,8 @@ def gen_desc(rng, lib=None, n_inst=None, seq=True):
     cand = [s for s in sigs if s not in in_bits] or sigs
     for _ in range(rng.randint(1, 4)):
         if rng.random() < 0.35:
-            w = rng.choice([1, 2, 3, 4, 11])
-            lo = rng.randint(0, 2)
+            w = rng.choice([1, 2, 3, 4, 11, 40])
+            lo = rng.choice([0, 1, 2, 7, 98])
             rg = (lo + w - 1, lo) if rng.random() < 0.5 else (lo, lo + w - 1)
             nm = fresh('ob')
             bits = [f'{nm}[{i}]' for i in _range(rg)]
